@@ -307,7 +307,13 @@ fn objective_checks(ctx: &mut Ctx, name: &str, clamp: Option<(f32, f32)>, pred: 
     let p64: Vec<f64> = p.iter().map(|x| *x as f64).collect();
     let (rl, rg) = obj_ref(name, &a64, &p64);
     // the f32 loss is a sum of up to n rounded terms; tolerance relative to the sum of magnitudes
-    let ok_loss = close(*loss, rl, 2e-5, 1e-6 * (1.0 + rl.abs()));
+    // … for AE / MAE / MSE / RMSE every term is non-negative, so nothing cancels and the loss is known to a RELATIVE
+    // accuracy of a few units in the last place however small it is (absolute floor: where a square underflows)
+    let ok_loss = match name {
+        "ae" | "mae" | "mse" => close(*loss, rl, 2e-5, 1e-36),
+        "rmse" => close(*loss, rl, 2e-5, 1e-18),
+        _ => close(*loss, rl, 2e-5, 1e-6 * (1.0 + rl.abs())),
+    };
     ctx.oracle(ok_loss || !loss.is_finite(), &format!("{}-loss-formula", name), "the loss must equal the documented formula", desc.clone(), format!("{:e}", loss), format!("{:e}", rl));
     let g = flat_any(grad);
     let expect: Vec<f64> = rg.iter().map(|v| match clamp { Some((lo, hi)) => v.max(lo as f64).min(hi as f64), None => *v }).collect();
